@@ -787,6 +787,8 @@ class CircuitTemplate(AbstractBaseTemplate):
             for key, value in node_values.items():
                 *node_id, op, var = key.split("/")
                 target_nodes = self.get_nodes(node_id)
+                if not target_nodes:
+                    warn(PyRatesWarning(f'Node value `{key}` does not address any node of the network and is ignored.'))
                 for i, n in enumerate(target_nodes):
                     if n not in values:
                         values[n] = dict()
@@ -1187,11 +1189,17 @@ class CircuitTemplate(AbstractBaseTemplate):
                         out_map[key][var_key] = self._get_var_idx(var_key)
                         out_vars[var_key] = backend_key
 
+                else:
+
+                    raise PyRatesException(f'Output `{key}`: variable {out} could not be found in the network.')
+
         else:
 
             outputs = self._relabel_var(outputs, self._vectorization_labels)
             *out_nodes, out_op, out_var = outputs.split('/')
             target_nodes = self.get_nodes(out_nodes, var_identifier=(out_op, out_var))
+            if not target_nodes:
+                raise PyRatesException(f'Output variable {outputs} could not be found in the network.')
 
             # extract index for single output node
             for t in target_nodes:
